@@ -318,6 +318,12 @@ func (o *tokOracle) settle(f *flight) {
 		}
 	}
 	isErr := strings.HasPrefix(modelAck(ack), "error:")
+	var beforeAck uint64 // what the sender holds right before the source processes the acknowledgement
+	for _, b := range h.Ledger(s).MtBal {
+		if f.Mod == "MT" && b.Class == f.PreOwner && b.ID == f.ID && b.Owner == f.Sender {
+			beforeAck = b.Amount
+		}
+	}
 	if !ackHop(s, final, ack) {
 		if isErr {
 			o.fail("C06:refund-failed", "processing the error acknowledgement on the source failed: the sender is never refunded", map[string]any{"packet": p, "err": h.Descs[len(h.Descs)-1].Err})
@@ -350,8 +356,10 @@ func (o *tokOracle) settle(f *flight) {
 					got = b.Amount
 				}
 			}
-			if got != f.PreAmount {
-				o.fail("C06:refund-not-exact", fmt.Sprintf("after the error acknowledgement the sender holds %d of %s/%s, before the send %d", got, f.PreOwner, f.ID, f.PreAmount), map[string]any{"packet": p})
+			// exactly the amount comes back (other transactions of the sender may lie between send and refund,
+			// so the comparison is with the holding right before the acknowledgement is processed)
+			if got != beforeAck+f.Amount {
+				o.fail("C06:refund-not-exact", fmt.Sprintf("processing the error acknowledgement changed the sender's holding of %s/%s from %d to %d; the packet carried %d", f.PreOwner, f.ID, beforeAck, got, f.Amount), map[string]any{"packet": p})
 			}
 		}
 	}
